@@ -310,23 +310,28 @@ def propsItems (ps : List (List Bytes)) : List (Bytes × Bytes) :=
     | [] => []
     | key :: _ => (propsGet ps key).map fun v => (key, v)
 
-/-- one feature: key line and qualifier lines (no trailing line feed); the padding
-`strings.Repeat(" ", 21-5-len(key))` panics for keys longer than 16 bytes -/
-def featureText (reg : Registry) (f : QFeature) : Out Bytes :=
-  if f.key.length > 16 then .error .panic
-  else if !propsOk f.props then .error .panic
+/-- the location column of the table: 21, or wider when a key does not fit in front of it — the
+whole table is then laid out with the wider column (repo e050333) -/
+def tableDepth (fs : List QFeature) : Nat := fs.foldl (fun d f => max d (5 + f.key.length + 1)) 21
+
+/-- one feature: key line and qualifier lines (no trailing line feed) for the location column
+`depth`; `Props.Keys` panics on a row without a name -/
+def featureText (reg : Registry) (depth : Nat) (f : QFeature) : Out Bytes :=
+  if !propsOk f.props then .error .panic
   else
-    .ok (sp 5 ++ f.key ++ sp (16 - f.key.length) ++ bs f.loc.print ++
-      ((propsItems f.props).flatMap fun kv => 10 :: qualifierFmt reg (sp 21) kv.1 kv.2))
+    .ok (sp 5 ++ f.key ++ sp (depth - 5 - f.key.length) ++ bs f.loc.print ++
+      ((propsItems f.props).flatMap fun kv => 10 :: qualifierFmt reg (sp depth) kv.1 kv.2))
+
+def tableTextD (reg : Registry) (depth : Nat) : List QFeature → Out Bytes
+  | [] => .ok []
+  | [f] => featureText reg depth f
+  | f :: fs => do
+    let a ← featureText reg depth f
+    let b ← tableTextD reg depth fs
+    pure (a ++ 10 :: b)
 
 /-- `INSDCFormatter{table, "     ", 21}.String()` -/
-def tableText (reg : Registry) : List QFeature → Out Bytes
-  | [] => .ok []
-  | [f] => featureText reg f
-  | f :: fs => do
-    let a ← featureText reg f
-    let b ← tableText reg fs
-    pure (a ++ 10 :: b)
+def tableText (reg : Registry) (fs : List QFeature) : Out Bytes := tableTextD reg (tableDepth fs) fs
 
 /-! ### the record (genbank.go:197-305) -/
 
